@@ -3,6 +3,8 @@
 package main
 
 import (
+	"sync/atomic"
+	"sync"
 	"bytes"
 	"compress/gzip"
 	"context"
@@ -197,6 +199,8 @@ func special(resp rawResp) string {
 	}
 	return ""
 }
+
+func seedOf(r *mrand.Rand) int64 { return r.Int63() }
 
 func renderResp(resp rawResp) string {
 	if resp.err != nil {
@@ -405,6 +409,132 @@ func (w *world19) monMeta(host, target string, resp rawResp) string {
 		}
 	}
 	return "holds"
+}
+
+// layoutReqs: every servable layout path of every log, witness and mirror of this configuration
+func (w *world19) layoutReqs() []layoutReq {
+	var layout []layoutReq
+	for _, l := range w.cfg.logs {
+		root := w.rootOf(l.dir)
+		for name, e := range root.files {
+			if e.kind == "reg" && isLayoutName(false, name) && !strings.Contains(l.host, ":") {
+				layout = append(layout, layoutReq{l.host, l.prefix + "/" + name, root, name})
+			}
+		}
+	}
+	for _, x := range w.cfg.wits {
+		root := w.rootOf(x.dir)
+		for name, e := range root.files {
+			if e.kind == "reg" && isLayoutName(true, name) && !strings.Contains(x.host, ":") {
+				layout = append(layout, layoutReq{x.host, x.prefix + "/" + name, root, name})
+			}
+		}
+	}
+	sort.Slice(layout, func(i, j int) bool { return layout[i].host+layout[i].target < layout[j].host+layout[j].target })
+	return layout
+}
+
+// concurrent: the same layout paths requested by many clients at once over keep-alive connections.
+// Every 200 must be, byte for byte, the file its own path names, with the metadata prescribed for
+// it: requests in flight together must not influence each other (handlers sharing state).
+func (w *world19) concurrent(seed int64, s *server, total int, stats map[string]int) {
+	layout := w.layoutReqs()
+	if len(layout) == 0 {
+		return
+	}
+	// witness and mirror paths first: that is where paths are rewritten per request
+	var wit, rest []layoutReq
+	for _, lr := range layout {
+		isWit := false
+		for _, x := range w.cfg.wits {
+			if x.host == lr.host && strings.HasPrefix(lr.target, x.prefix+"/") && x.dir == lr.root.dir {
+				isWit = true
+			}
+		}
+		if isWit {
+			wit = append(wit, lr)
+		} else {
+			rest = append(rest, lr)
+		}
+	}
+	const workers = 32
+	type bad struct{ host, target, why string }
+	var mu sync.Mutex
+	var bads []bad
+	var done, n200 int64
+	var wg sync.WaitGroup
+	for g := 0; g < workers; g++ {
+		wg.Add(1)
+		go func(g int) {
+			defer wg.Done()
+			r := mrand.New(mrand.NewSource(seed*977 + int64(g)))
+			hc := &http.Client{Timeout: 30 * time.Second, Transport: &http.Transport{
+				DialContext: func(ctx context.Context, network, addr string) (net.Conn, error) {
+					return (&net.Dialer{}).DialContext(ctx, "tcp", s.addr)
+				},
+				MaxIdleConnsPerHost: 4, DisableCompression: true,
+			}}
+			for k := 0; k < total/workers; k++ {
+				var lr layoutReq
+				if len(wit) > 0 && (len(rest) == 0 || r.Intn(4) > 0) {
+					lr = wit[r.Intn(len(wit))]
+				} else {
+					lr = rest[r.Intn(len(rest))]
+				}
+				req, err := http.NewRequest("GET", "http://"+lr.host+lr.target, nil)
+				if err != nil {
+					continue
+				}
+				req.Header.Set("User-Agent", "verif-harness (verif@test.invalid)")
+				resp, err := hc.Do(req)
+				if err != nil {
+					continue
+				}
+				body, err := io.ReadAll(resp.Body)
+				resp.Body.Close()
+				atomic.AddInt64(&done, 1)
+				if err != nil || resp.StatusCode != 200 {
+					continue // rate limiting etc.: not a successful response
+				}
+				atomic.AddInt64(&n200, 1)
+				want := lr.root.files[lr.rel].data
+				why := ""
+				ct, ce, cc := prescribed(lr.rel)
+				switch {
+				case !bytes.Equal(body, want):
+					why = fmt.Sprintf("body (%d bytes, sha256 %s) is not the stored object %s (%d bytes)", len(body), sha(body)[:16], lr.rel, len(want))
+					for name, f := range lr.root.files {
+						if f.kind == "reg" && bytes.Equal(f.data, body) {
+							why += "; it is the content of " + name
+							break
+						}
+					}
+				case resp.Header.Get("Content-Type") != ct:
+					why = fmt.Sprintf("Content-Type %q, layout prescribes %q", resp.Header.Get("Content-Type"), ct)
+				case resp.Header.Get("Content-Encoding") != ce:
+					why = fmt.Sprintf("Content-Encoding %q, layout prescribes %q", resp.Header.Get("Content-Encoding"), ce)
+				case resp.Header.Get("Cache-Control") != cc:
+					why = fmt.Sprintf("Cache-Control %q, layout prescribes %q", resp.Header.Get("Cache-Control"), cc)
+				}
+				if why != "" {
+					mu.Lock()
+					if len(bads) < 3 {
+						bads = append(bads, bad{lr.host, lr.target, why})
+					}
+					mu.Unlock()
+				}
+			}
+		}(g)
+	}
+	wg.Wait()
+	stats["concurrent-requests"] += int(done)
+	stats["concurrent-200"] += int(n200)
+	if len(bads) == 0 {
+		emit("mon_concurrent|%s|%d-clients-%d-requests-%d-ok|=>|holds", hx([]byte("all")), workers, done, n200)
+	}
+	for _, b := range bads {
+		emit("mon_concurrent|%s|%s|=>|FAILS:with %d clients requesting layout paths at once, a 200 for this path: %s", hx([]byte(b.host)), hx([]byte(b.target)), workers, strings.ReplaceAll(b.why, "|", "/"))
+	}
 }
 
 func (w *world19) monClient(s *server, l entryCfg, rl *realLog) string {
@@ -624,6 +754,7 @@ func runC19(r *mrand.Rand, bin, scratch string, n int) {
 			w.replay(s, stats)
 		} else {
 			w.requests(r, s, budget, stats)
+			w.concurrent(seedOf(r), s, 24000, stats)
 		}
 		if ci == 0 && replayLines == nil {
 			for i, l := range cfg.logs {
